@@ -868,6 +868,12 @@ class Job:
                     )
                 else:
                     raise error
+            # This handle now refers to the job in the destination project.
+            # Shallow copies keep referring to the original project, so they
+            # must no longer trigger (or be triggered by) this handle.
+            self._statepoint._jobs[:] = [
+                job for job in self._statepoint._jobs if job is not self
+            ]
             self.__dict__.update(dst.__dict__)
 
             # Update the destination project's state point cache
